@@ -222,13 +222,17 @@ CHECKS = {
                   "states, determinism rechecks) against a plain reference model",
         text="BFS over the real HippoClientProtocol.datagram_received, Session and Region handlers, Circuit and the resend task: every history up to 7 events (quick 5) "
              "with at most 3 deviations over peer packets id 1..3 x chat/ping x reliable/RESENT/duplicate/out-of-order/task-deferral, both ack forms for every subset of "
-             "outstanding ids plus stale and future ids, client reliable and unreliable sends, and ticks short of, past and across the retry budget, in three "
-             "subscriber/circuit configurations (solo, shared Event, pre-handshake; all asserted), plus PacketAck datagrams carrying body and appended ids in every "
+             "outstanding ids plus stale and future ids, client reliable and unreliable sends, and ticks short of, past and across the retry budget, in four "
+             "subscriber/circuit configurations (solo; shared Event; peer traffic on a not-yet-alive circuit across the handshake-completes transition; "
+             "self-unsubscribing subscribers -- wait_for, one_shot, handler returning True -- registered ahead of persistent ones on every Event at both levels; all "
+             "asserted), plus PacketAck datagrams carrying body and appended ids in every "
              "split and client sends of Messages with a preset packet_id (0, last, last-1, last+50, a received message echoed back). Twelve oracle clauses against a reference model (always ack, dispatch at most once "
              "per subscriber incl. region level, unreliable always delivered, completion exactly on ack, failure exactly at budget, ids strictly increasing).",
         note="One region; at most 2 reliable and 1 unreliable client sends per history; a peer never reuses a packet id for a different message; acks and ping replies "
              "are demanded by the next loop quiescence; one 0.5 s resend-poll period of lateness allowed, never earliness; retry budget and interval read from the code; "
-             "hmc.refwire and a 20-line header decoder trusted; template mtime reload disabled and MessageDotXML memoised by the harness."),
+             "hmc.refwire and a 20-line header decoder trusted; template mtime reload disabled and MessageDotXML memoised by the harness; connect() itself needs HTTP "
+             "and is not executed: its is_alive flip and its wait_for are reproduced by the harness; the pre-handshake and self-unsubscribe configurations run one "
+             "event short of the horizon in the thorough tier."),
     "C14": dict(
         category="model_checking", design_ref="DESIGN.md §4 C14",
         technique="explicit-state BFS (hmc.explore.bfs, history replay, virtual asyncio loop) over object-update / kill / request histories against an independent dict scene-graph model",
